@@ -557,7 +557,12 @@ class RevocationKey(Signature):
     @algorithm.register(int)
     @algorithm.register(PubKeyAlgorithm)
     def algorithm_int(self, val):
-        self._algorithm = PubKeyAlgorithm(val)
+        try:
+            self._algorithm = PubKeyAlgorithm(val)
+
+        except ValueError:
+            # the designated revoker may hold a key of an algorithm this implementation has no name for
+            self._algorithm = int(val)
 
     @algorithm.register(bytearray)
     def algorithm_bytearray(self, val):
@@ -586,7 +591,7 @@ class RevocationKey(Signature):
     def __bytearray__(self):
         _bytes = super(RevocationKey, self).__bytearray__()
         _bytes += self.int_to_bytes(sum(self.keyclass))
-        _bytes += self.int_to_bytes(self.algorithm.value)
+        _bytes += self.int_to_bytes(int(self.algorithm))
         _bytes += self.fingerprint.__bytes__()
         return _bytes
 
@@ -817,7 +822,12 @@ class ReasonForRevocation(Signature):
     @code.register(int)
     @code.register(RevocationReason)
     def code_int(self, val):
-        self._code = RevocationReason(val)
+        try:
+            self._code = RevocationReason(val)
+
+        except ValueError:
+            # RFC 4880 5.2.3.23: 100-110 are private use, and an unknown reason is to be treated like "no reason"
+            self._code = int(val)
 
     @code.register(bytearray)
     def code_bytearray(self, val):
